@@ -578,7 +578,11 @@ aiff_read_header (SF_PRIVATE *psf, COMM_CHUNK *comm_fmt)
 					found_chunk |= HAVE_SSND ;
 
 					if (! psf->sf.seekable)
+					{	/* psf_fseek () does nothing on a pipe : step over the offset bytes by reading them. */
+						if (ssnd_fmt.offset > 0)
+							psf_binheader_readf (psf, "j", (size_t) ssnd_fmt.offset) ;
 						break ;
+						} ;
 
 					/* Seek to end of SSND chunk. */
 					psf_fseek (psf, psf->dataoffset + psf->datalength, SEEK_SET) ;
